@@ -37,15 +37,32 @@ def leaves(stmts, conds=()):
     st, rest = stmts[0], stmts[1:]
     if isinstance(st, ast.If):
         out = []
-        for l in leaves(list(st.body), conds + ((st.test, True),)):
-            for l2 in leaves(rest, tuple(l.conds)):
-                out.append(Leaf(l2.conds, l.stmts + l2.stmts))
-        for l in leaves(list(st.orelse), conds + ((st.test, False),)):
-            for l2 in leaves(rest, tuple(l.conds)):
-                out.append(Leaf(l2.conds, l.stmts + l2.stmts))
+        for arm, taken in ((st.body, True), (st.orelse, False)):
+            for l in leaves(list(arm), conds + ((st.test, taken),)):
+                if getattr(l, "left", False):
+                    out.append(l)           # the arm left the block (continue / break / return / raise)
+                    continue
+                for l2 in leaves(rest, tuple(l.conds)):
+                    nl = Leaf(l2.conds, l.stmts + l2.stmts)
+                    nl.left = getattr(l2, "left", False)
+                    out.append(nl)
         return out
+    if isinstance(st, ast.Continue):
+        # in a loop body: the same as reaching the end of the body
+        l = Leaf(list(conds), [])
+        l.left = True
+        return [l]
+    if isinstance(st, (ast.Break, ast.Return, ast.Raise)):
+        l = Leaf(list(conds), [st])
+        l.left = True
+        return [l]
     tail = leaves(rest, conds)
-    return [Leaf(l.conds, [st] + l.stmts) for l in tail]
+    out = []
+    for l in tail:
+        nl = Leaf(l.conds, [st] + l.stmts)
+        nl.left = getattr(l, "left", False)
+        out.append(nl)
+    return out
 
 
 def run(chk, repo):
@@ -95,9 +112,13 @@ def run(chk, repo):
     dq = None
     main_if = None
     tail_if = None
+    clamped = {}
     for st in body:
         if isinstance(st, ast.Assign) and len(st.targets) == 1 and isinstance(st.targets[0], ast.Name):
             nm = st.targets[0].id
+            if nm == "hop" and unparse(st.value) in ("size if hop is None else hop", "hop if hop is not None else size"):
+                chk.ok("C08.blocks.counter", W("blocks"), "default hop: " + short(st), node=st)
+                continue
             if isinstance(st.value, ast.Call) and unparse(st.value.func) == "deque":
                 dq = (nm, st)
                 continue
@@ -109,7 +130,13 @@ def run(chk, repo):
             ok = len(st.body) == 1 and unparse(st.body[0]) == "hop = size" and not st.orelse
             chk.decide(ok, "C08.blocks.counter", W("blocks"), "default hop: " + short(st),
                        why="hop defaults to size (non-overlapping blocks)", node=st)
-        elif isinstance(st, ast.If) and any(isinstance(n, ast.For) for n in ast.walk(st)) and main_if is None:
+        elif isinstance(st, ast.If) and not st.orelse and len(st.body) == 1 and isinstance(st.body[0], ast.Assign) \
+                and isinstance(st.body[0].targets[0], ast.Name) and unparse(st.body[0].value) == "0" \
+                and unparse(st.test) in ("0 > %s" % st.body[0].targets[0].id, "%s < 0" % st.body[0].targets[0].id) \
+                and st.body[0].targets[0].id in env:
+            clamped[st.body[0].targets[0].id] = env[st.body[0].targets[0].id]      # x = max(x, 0)
+        elif isinstance(st, ast.If) and any(isinstance(n, ast.For) and unparse(n.iter) == "seq" for n in ast.walk(st)) \
+                and main_if is None:
             main_if = st
         elif isinstance(st, ast.If):
             tail_if = st
@@ -168,7 +195,8 @@ def run(chk, repo):
             if ys:
                 if len(ys) != 1 or unparse(ys[0].value.value) != resname:
                     problems.append("leaf [%s] must yield the deque once" % cond_txt)
-                eqs = [(c, pol) for c, pol in leaf.conds if isinstance(c, ast.Compare) and isinstance(c.ops[0], ast.Eq)
+                eqs = [(c, pol if isinstance(c.ops[0], ast.Eq) else not pol) for c, pol in leaf.conds
+                       if isinstance(c, ast.Compare) and isinstance(c.ops[0], (ast.Eq, ast.NotEq))
                        and "idx" in (unparse(c.left), unparse(c.comparators[0]))]
                 if len(eqs) != 1 or not eqs[0][1]:
                     problems.append("yield leaf [%s] is not guarded by idx == <constant>" % cond_txt)
@@ -227,6 +255,8 @@ def run(chk, repo):
     rhs_ok = False
     if good:
         r = t.comparators[0]
+        if isinstance(r, ast.Name) and r.id in clamped:
+            rhs_ok = clamped[r.id] == size - hop
         if isinstance(r, ast.Call) and unparse(r.func) == "max" and len(r.args) == 2:
             vals = []
             for a in r.args:
@@ -241,13 +271,36 @@ def run(chk, repo):
     tb = tail_if.body
     good = len(tb) == 2 and isinstance(tb[0], ast.For) and isinstance(tb[1], ast.Expr) and isinstance(tb[1].value, ast.Yield) \
         and unparse(tb[1].value.value) == resname and not tail_if.orelse
+    if not good and len(tb) == 2 and isinstance(tb[0], ast.Expr) and isinstance(tb[0].value, ast.Call) \
+            and unparse(tb[0].value.func) == "%s.extend" % resname and len(tb[0].value.args) == 1 \
+            and isinstance(tb[1], ast.Expr) and isinstance(tb[1].value, ast.Yield) and unparse(tb[1].value.value) == resname \
+            and not tail_if.orelse:
+        # res.extend(padval for _ in range(idx, size))  /  res.extend([padval] * (size - idx))
+        a0_ = tb[0].value.args[0]
+        ok_ext = False
+        if isinstance(a0_, (ast.GeneratorExp, ast.ListComp)) and unparse(a0_.elt) == "padval" and len(a0_.generators) == 1 \
+                and not a0_.generators[0].ifs and isinstance(a0_.generators[0].iter, ast.Call) \
+                and canon_call(mod, a0_.generators[0].iter) == "range" \
+                and [unparse(x) for x in a0_.generators[0].iter.args] == ["idx", "size"]:
+            ok_ext = True
+        elif isinstance(a0_, ast.BinOp) and isinstance(a0_.op, ast.Mult):
+            lst, cnt = (a0_.left, a0_.right) if isinstance(a0_.left, ast.List) else (a0_.right, a0_.left)
+            try:
+                ok_ext = isinstance(lst, ast.List) and [unparse(e) for e in lst.elts] == ["padval"] \
+                    and Evaluator().ev(cnt) == size - RF.sym("idx")
+            except Inconclusive:
+                ok_ext = False
+        chk.decide(ok_ext, "C08.blocks.tail", W("blocks"), "padding: " + short(tb[0]) + " ; " + short(tb[1]),
+                   why="must append exactly size - idx pad values and yield the block once", node=tail_if)
+        good = None
     if good:
         f = tb[0]
         good = isinstance(f.iter, ast.Call) and canon_call(mod, f.iter) == "range" and \
             [unparse(a) for a in f.iter.args] == ["idx", "size"] and len(f.body) == 1 \
             and unparse(f.body[0]) == "%s.append(padval)" % resname
-    chk.decide(good, "C08.blocks.tail", W("blocks"), "padding: " + short(tb[0]) + " ; " + (short(tb[1]) if len(tb) > 1 else ""),
-               why="must append exactly size - idx pad values and yield the block once", node=tail_if)
+    if good is not None:
+        chk.decide(good, "C08.blocks.tail", W("blocks"), "padding: " + short(tb[0]) + " ; " + (short(tb[1]) if len(tb) > 1 else ""),
+                   why="must append exactly size - idx pad values and yield the block once", node=tail_if)
     last = body[-1]
     chk.decide(last is tail_if, "C08.blocks.tail", W("blocks"), "padding happens after both main loops",
                why="pad value may only appear in the final block", node=tail_if)
